@@ -5,7 +5,7 @@ ID = 'C16'
 THEOREMS = SC.THEOREMS + [
     ('EAO.Properties.C01', 'EAO.C01.nodal_balance_structured', 'a structured asset is a well-formed asset of the outer portfolio with dispatch rows at external nodes only; inner nodes balance by the inner rows'),
 ]
-PARTIAL = ['"free scale: the optimum is the best over the allowed range" follows from scaled_fixed by taking the supremum over s and is checked by the oracle (V_free >= V(s_i) on a grid, = V(s*) at the reported scale); scaled_fixed is a statement about the RELAXED problem: for bases with boolean variables (plants with on-variables, full-execution order books) the scaled asset is not "all capacities times s/norm" (known finding F-16c)']
+PARTIAL = SC.PARTIAL
 COMPONENTS = SC.COMPONENTS
 RULE = ('scaled assets over captured real base problems (SimpleContract, Contract with takes, Storage 1|2 nodes, Transport, ExtendedTransport, MultiCommodity, Plant, OrderBook incl. orders outside the horizon) and structured assets over captured inner portfolios; oracles: fixed scale = base with all capacities * s/norm minus fixed costs, free scale >= every fixed scale and = the reported scale, structured vs flat portfolio (value, external dispatch); '
         'non-trivial = oracle compared a solved pair; distinct by case hash')
